@@ -200,6 +200,22 @@ def check_base(cls, src, dest, as_bytes):
     exp = ["on_any_event", f"on_{cls.event_type}"]
     if calls != exp:
         raise Violation(f"base handler: {cls.__name__} -> {calls}, expected {exp}", "base-dispatch")
+    # the library's own subclass of the base handler in front of a user's handler (cooperative super() chain): the
+    # handler behind it still gets on_any_event and exactly the callback of the event's type (seeded change C15-9)
+    import logging
+
+    from watchdog.events import LoggingEventHandler
+
+    calls2 = []
+    ns = {name: (lambda name: lambda self, event: calls2.append(name))(name) for name in ["on_any_event"] + [f"on_{t}" for t in EVENT_TYPES.values()]}
+    Behind = type("Behind", (FileSystemEventHandler,), ns)
+    Composed = type("Composed", (LoggingEventHandler, Behind), {})
+    lg = logging.getLogger("verif.c15.null")
+    lg.propagate = False
+    lg.setLevel(logging.CRITICAL + 1)
+    Composed(logger=lg).dispatch(mk_event(cls, src, dest, as_bytes))
+    if calls2 != exp:
+        raise Violation(f"LoggingEventHandler in front of a handler: {cls.__name__} -> {calls2}, expected {exp}", "base-dispatch-composed")
 
 
 def check_pattern(cls, src, dest, inc, exc, cs, ign, as_bytes):
